@@ -54,6 +54,9 @@ SNIPPETS = [
     "np.abs(np.diff(np.array([[1.0, 5.0], [4.0, 3.0], [0.0, 6.0]]), axis=0))", "np.diff(np.array([[1, 5, 2], [4, 3, 9]]), axis=1)", "_u1()",
     "np.searchsorted(np.array([1, 3, 3, 7]), np.array([0, 3, 4, 9]), side='right')", "np.searchsorted(np.array([1, 3, 3, 7]), 3)",
     "np.zeros(3)[np.array([])]", "np.zeros(3)[np.array([], dtype=int)]", "np.array(sorted(set([]) | set([])))", "np.unique(np.append(np.array([], dtype=int), np.array([], dtype=int)))",
+    "np.roll(np.array([1, 2, 3, 4]), 1)", "np.roll(np.array([True, False, False]), -1)", "np.roll(np.array([]), 2)", "np.roll(np.arange(5), 7)",
+    "list(pd.DataFrame({'b': [1], 'a': [2], 'c': [3]}).columns.intersection(['c', 'zz', 'b']))", "list(pd.DataFrame({'b': [1], 'a': [2], 'c': [3]}).columns.difference(['a']))",
+    "pd.DataFrame({'b': [1], 'a': [2]}).columns.isin(['a', 'q'])",
     "_n1()", "_n2()", "_n3()", "_n4()", "_n5()", "_n6()", "_n7()", "_n8()", "_n9()",
     "np.ceil(3 / 2)", "int(np.ceil(0 / 2))", "np.array([2, 9, 4])[0::2]", "np.array([5, 7, 9])[np.array([True, False, True])] - 2",
     # --- pandas
